@@ -61,10 +61,12 @@ def _cases(draw, tier):
     d = len(cfg["sig"])
     n = 2 ** d
     heavy = op in INVOPS or op in ("outertan", "sqrt", "pow0.5", "normalized", "norm", "sw", "proj", "normsq")
+    case_padmax = None
     allow_full = not (heavy and d >= 4) and not (op == "outertan" and d >= 3)
     cap = 6 if (heavy and d >= 4) else None
     if op == "outertan" and d >= 3:
-        cap = 4      # symbolic division: a full d=3 layout was measured at 29 s per generated function
+        cap = 4 if d == 3 else 3      # symbolic division: a full d=3 layout was measured at 29 s, 4+pad blades in d=4 at 16 s
+        case_padmax = 1
     case = {"cfg": cfg, "op": op, "wrapper": draw(st.integers(0, 3)) == 0}
     classes = ["single", "sparse", "sparse", "gradeblock", "perm", "puregrade", "puregrade"]
     if op in ("sqrt", "pow0.5"):
@@ -81,12 +83,15 @@ def _cases(draw, tier):
         else:
             case["a"] = {"cls": "blade", "keys": [draw(st.integers(0, n - 1))], "vals": [draw(st.sampled_from(["1/2", "-1", "3/2", "2", "-1/4"]))]}
     elif op in SERIES:
-        a = draw(S.operand(d, classes=classes, max_len=cap, min_len=1, zero_prob=0.05))
+        # homogeneous operands (bivectors, incl. non-simple ones from d=4 on) are what the outer series is used on
+        a = draw(S.operand(d, classes=["puregrade"] * 4 + ["sparse", "perm"], max_len=cap, min_len=1, zero_prob=0.05))
         kv = [(k, v) for k, v in zip(a["keys"], a["vals"]) if k != 0]
         case["a"] = {"cls": a["cls"], "keys": [k for k, _ in kv], "vals": [v for _, v in kv]}
     else:
         case["a"] = draw(S.operand(d, classes=classes + ["empty"], max_len=cap, zero_prob=0.05))
     case["va"] = draw(_variant(d, allow_full))
+    if case_padmax is not None:
+        case["va"]["pad"] = case["va"]["pad"][:case_padmax]
     if op in EXACT_BIN or op == "div":
         case["b"] = draw(S.operand(d, classes=classes + ["empty"], max_len=cap, zero_prob=0.05))
         case["vb"] = draw(_variant(d, allow_full))
